@@ -38,6 +38,8 @@ fn main() {
         "C04" => props::c04::run(&env),
         "C05" => props::c05::run(&env),
         "C07" => props::c07::run(&env),
+        "C09" => props::c09::run(&env),
+        "C10" => props::c10::run(&env),
         "C11" => props::c11::run(&env),
         "C16" => props::c16::run(&env),
         "C20" => props::c20::run(&env),
